@@ -1010,8 +1010,11 @@ def matrix_inverse_pth_root_eigh(
   if padding_start is not None:
     e *= jnp.flip(ix)
   mm = functools.partial(jnp.matmul, precision=precision)
-  inv_e = jnp.where(e == 0.0, 0.0,
-                    jnp.power(jnp.maximum(e, ridge_epsilon), alpha))
+  # Eigenvalues of a PSD matrix that come out non-positive (rounding, with
+  # ridge_epsilon == 0) are treated like exact zeros, otherwise 0**alpha = inf.
+  clipped_e = jnp.maximum(e, ridge_epsilon)
+  inv_e = jnp.where(jnp.logical_or(e == 0.0, clipped_e <= 0.0), 0.0,
+                    jnp.power(clipped_e, alpha))
   val = mm(mm(u, jnp.diag(inv_e)), u.T)
   root = u * jnp.sqrt(inv_e)
   val = mm(root, root.T)
